@@ -570,4 +570,115 @@ theorem lexS_float (neg : Bool) (ip fp rest : List Char) (line : Nat) (hne : ip 
   rw [hm]
   cases neg <;> simp [Bool.and_comm, neg_eq_zero]
 
+/-! ### decimals with an exponent (`1.5e3`, `-2.E-4`, `7.25e+10`) -/
+
+/-- the exponent part: `e` or `E`, an optional sign, digits -/
+def expChars (upper : Bool) (sign : Option Bool) (ed : List Char) : List Char :=
+  (if upper then 'E' else 'e') :: ((match sign with | none => [] | some true => ['-'] | some false => ['+']) ++ ed)
+
+/-- the exponent denoted -/
+def expVal (sign : Option Bool) (ed : List Char) : Int := if sign = some true then -(digitsVal ed : Int) else (digitsVal ed : Int)
+
+/-- the value of the decimal `ip.fp` times ten to the `e` (as the lexer computes it: one scaling by `e - #fp`) -/
+def scaledValue (ip fp : List Char) (e : Int) : Rat :=
+  let m : Rat := (digitsVal (ip ++ fp) : Nat)
+  let scale : Int := e - fp.length
+  if scale ≥ 0 then m * ((10 : Rat) ^ scale.toNat) else m / ((10 : Rat) ^ (-scale).toNat)
+
+theorem scanExponent_exp (upper : Bool) (sign : Option Bool) (ed rest : List Char) (hne : ed ≠ []) (hd : ∀ c ∈ ed, isDig c = true)
+    (hs : StopsAt isDig rest) : scanExponent (expChars upper sign ed ++ rest) = (expVal sign ed, rest) := by
+  obtain ⟨d, ed', rfl⟩ := List.exists_cons_of_ne_nil hne
+  have hdd : isDig d = true := hd d (List.mem_cons_self ..)
+  have hsp := spanDigits_append (d :: ed') rest hd hs
+  have hc : ((if upper then 'E' else 'e') == 'e' || (if upper then 'E' else 'e') == 'E') = true := by cases upper <;> decide
+  unfold expChars scanExponent
+  simp only [List.cons_append, hc, if_true]
+  have hos : optSign (d :: ed' ++ rest) = (false, d :: ed' ++ rest) := optSign_digit d (ed' ++ rest) hdd
+  have hne' : (d :: ed').isEmpty = false := rfl
+  cases sign with
+  | none =>
+    simp only [List.nil_append, hos, hsp, hne']
+    simp [expVal]
+  | some b =>
+    cases b with
+    | true =>
+      have : optSign ('-' :: (d :: ed' ++ rest)) = (true, d :: ed' ++ rest) := rfl
+      simp only [List.cons_append, List.nil_append] at this ⊢
+      rw [this]
+      have e2 : d :: (ed' ++ rest) = d :: ed' ++ rest := rfl
+      simp only [e2, hsp, hne']
+      simp [expVal]
+    | false =>
+      have : optSign ('+' :: (d :: ed' ++ rest)) = (false, d :: ed' ++ rest) := rfl
+      simp only [List.cons_append, List.nil_append] at this ⊢
+      rw [this]
+      have e2 : d :: (ed' ++ rest) = d :: ed' ++ rest := rfl
+      simp only [e2, hsp, hne']
+      simp [expVal]
+
+theorem scan_float_exp (neg : Bool) (ip fp : List Char) (upper : Bool) (sign : Option Bool) (ed rest : List Char)
+    (hne : ip ≠ []) (hi : ∀ c ∈ ip, isDig c = true) (hf : ∀ c ∈ fp, isDig c = true)
+    (hene : ed ≠ []) (hed : ∀ c ∈ ed, isDig c = true)
+    (hlen : (expVal sign ed - fp.length).natAbs ≤ 5000) (hs : StopsAt isDig rest) :
+    ∃ c tl, signChars neg ++ (ip ++ '.' :: (fp ++ (expChars upper sign ed ++ rest))) = c :: tl ∧ isIdStart c = false ∧ (c ≠ ' ' ∧ c ≠ '\t') ∧
+      ((c == '-') = neg) ∧
+      scanFloat (c :: tl) = some (some (if neg then -scaledValue ip fp (expVal sign ed) else scaledValue ip fp (expVal sign ed)), rest) := by
+  obtain ⟨d, ip', rfl⟩ := List.exists_cons_of_ne_nil hne
+  have hdd : isDig d = true := hi d (List.mem_cons_self ..)
+  have hstopE : StopsAt isDig (expChars upper sign ed ++ rest) := by
+    unfold expChars; apply stopsAt_cons; cases upper <;> decide
+  have hsp1 : spanDigits (d :: ip' ++ '.' :: (fp ++ (expChars upper sign ed ++ rest))) = (d :: ip', '.' :: (fp ++ (expChars upper sign ed ++ rest))) :=
+    spanDigits_append (d :: ip') _ hi (stopsAt_cons (by decide))
+  have hsp2 := spanDigits_append fp (expChars upper sign ed ++ rest) hf hstopE
+  have hmant : scanMantissa (d :: ip' ++ '.' :: (fp ++ (expChars upper sign ed ++ rest))) = some (d :: ip', fp, expChars upper sign ed ++ rest) := by
+    unfold scanMantissa
+    rw [hsp1]
+    simp only [List.isEmpty_cons, Bool.not_false, if_true, hsp2]
+  have hexp := scanExponent_exp upper sign ed rest hene hed hs
+  have hval : ∀ (ng : Bool), (match scanMantissa (d :: ip' ++ '.' :: (fp ++ (expChars upper sign ed ++ rest))) with
+      | none => none
+      | some (ip, fp, r3) =>
+        let (e, rest) := scanExponent r3
+        let m : Rat := (digitsVal (ip ++ fp) : Nat)
+        let scale : Int := e - fp.length
+        if scale.natAbs > 5000 then some (none, rest) else
+        let q := if scale ≥ 0 then m * ((10 : Rat) ^ scale.toNat) else m / ((10 : Rat) ^ (-scale).toNat)
+        some (some (if ng then -q else q), rest)) =
+      some (some (if ng then -scaledValue (d :: ip') fp (expVal sign ed) else scaledValue (d :: ip') fp (expVal sign ed)), rest) := by
+    intro ng
+    rw [hmant]
+    simp only [hexp]
+    have h1 : ¬ ((expVal sign ed - (fp.length : Int)).natAbs > 5000) := by omega
+    rw [if_neg h1]
+    rfl
+  cases neg with
+  | true =>
+    refine ⟨'-', d :: ip' ++ '.' :: (fp ++ (expChars upper sign ed ++ rest)), by simp [signChars], by decide, by decide, by decide, ?_⟩
+    unfold scanFloat optSign
+    exact hval true
+  | false =>
+    refine ⟨d, ip' ++ '.' :: (fp ++ (expChars upper sign ed ++ rest)), by simp [signChars], dig_not_idstart d hdd, ?_, ?_, ?_⟩
+    · constructor <;> (rintro rfl; exact absurd hdd (by decide))
+    · have : d ≠ '-' := by rintro rfl; exact absurd hdd (by decide)
+      simpa using this
+    · unfold scanFloat; rw [optSign_digit d _ hdd]
+      exact hval false
+
+/-- the token value of a decimal literal with exponent -/
+def floatExpTokVal (neg : Bool) (ip fp : List Char) (e : Int) : TVal :=
+  if neg && scaledValue ip fp e == 0 then .negZero else .float (if neg then -scaledValue ip fp e else scaledValue ip fp e)
+
+theorem lexS_float_exp (neg : Bool) (ip fp : List Char) (upper : Bool) (sign : Option Bool) (ed rest : List Char) (line : Nat)
+    (hne : ip ≠ []) (hi : ∀ c ∈ ip, isDig c = true) (hf : ∀ c ∈ fp, isDig c = true)
+    (hene : ed ≠ []) (hed : ∀ c ∈ ed, isDig c = true)
+    (hlen : (expVal sign ed - fp.length).natAbs ≤ 5000) (hs : StopsAt isDig rest) :
+    lexS (signChars neg ++ (ip ++ '.' :: (fp ++ (expChars upper sign ed ++ rest)))) line =
+      ⟨.float, floatExpTokVal neg ip fp (expVal sign ed), line⟩ :: lexS rest line := by
+  obtain ⟨c, tl, he, hid, hb, hm, hF⟩ := scan_float_exp neg ip fp upper sign ed rest hne hi hf hene hed hlen hs
+  rw [he, lexS_tok c tl line _ _ _ hb (scanOne_of_float c tl line _ rest hid hF)]
+  congr 2
+  unfold floatExpTokVal
+  rw [hm]
+  cases neg <;> simp [Bool.and_comm, neg_eq_zero]
+
 end MPilot.Lex
